@@ -11,8 +11,9 @@
 (*                         (tab[i].run); the entry is removed by onClose only *)
 (*                         afterwards, so a session that is being closed      *)
 (*                         while a tool runs is "closing": still in the table,*)
-(*                         requests are still looked up, calls park until the *)
-(*                         close completes.                                   *)
+(*                         requests are still looked up, new calls are        *)
+(*                         answered at once with a JSON-RPC error (server     *)
+(*                         closing), a DELETE waits for the close.            *)
 (* Session ids are 1..MaxSess in the order of minting.  Time is relative:     *)
 (* every armed timer carries the ticks left until its deadline.               *)
 (*                                                                            *)
@@ -29,7 +30,7 @@ CONSTANTS MaxSess,    \* ids the server may mint in one history
           T,          \* idle timeout in ticks; 0 = SessionTimeout unset
           Stateless,  \* StreamableHTTPOptions.Stateless
           MaxSlots,   \* slow POSTs in progress at the same time
-          MaxParked   \* requests parked on one closing session (pending DELETEs, hung calls)
+          MaxParked   \* DELETEs waiting on one closing session
 
 Users   == {"none", "A", "B"}
 Ids     == 1..MaxSess
@@ -47,11 +48,11 @@ VARIABLES tab,     \* [Ids -> session record]
           bad      \* ghost: a timeout closed a session under a POST admitted strictly before the deadline
 vars == <<tab, nmint, slot, tiewin, res, ranNow, bad>>
 
-\* pdel / phung: DELETEs and tool calls waiting for this (closing) session to die
+\* pdel: DELETEs waiting for this (closing) session to die
 FreeSess == [st |-> "free", owner |-> "none", refs |-> 0, tmr |-> "nil", rem |-> 0, cb |-> FALSE,
-             run |-> 0, pdel |-> 0, phung |-> 0]
+             run |-> 0, pdel |-> 0]
 DeadSess(o) == [FreeSess EXCEPT !.st = "dead", !.owner = o]
-FreeSlot == [id |-> 0, hung |-> FALSE, tie |-> FALSE]
+FreeSlot == [id |-> 0, tie |-> FALSE]
 
 Due(i) == tab[i].tmr = "armed" /\ tab[i].rem = 0
 Unsettled == \E i \in Ids : Due(i) \/ tab[i].cb
@@ -87,18 +88,12 @@ Touch(s) == EndPOST(StartPOST(s))
 SmallestFree == CHOOSE p \in Slots : slot[p].id = 0 /\ \A q \in Slots : q < p => slot[q].id # 0
 HasFreeSlot == \E p \in Slots : slot[p].id = 0
 
-\* onClose: everything that was waiting for session i completes (the user of a request that
-\* completes late is not tracked: "")
-DieCmps(i, sl) ==
-  [j \in 1..tab[i].pdel |-> Cmp("DELETE", "", i, "", "live", 204, 0, FALSE, FALSE)]
-  \o [j \in 1..tab[i].phung |-> Cmp("POST", "call", i, "", "live", 200, 0, FALSE, FALSE)]
-  \o [j \in 1..Cardinality({p \in Slots : sl[p].id = i /\ sl[p].hung}) |->
-         Cmp("POST", "slow", i, "", "live", 200, 0, FALSE, FALSE)]
-DieWith(i, first, sl) ==
+\* onClose: the DELETEs that were waiting for session i are answered (their user is not tracked: "")
+DieCmps(i) == [j \in 1..tab[i].pdel |-> Cmp("DELETE", "", i, "", "live", 204, 0, FALSE, FALSE)]
+Die(i, first) ==
   /\ tab' = [tab EXCEPT ![i] = DeadSess(tab[i].owner)]
-  /\ slot' = [p \in Slots |-> IF sl[p].id = i THEN FreeSlot ELSE sl[p]]
-  /\ res' = first \o DieCmps(i, sl)
-Die(i, first) == DieWith(i, first, slot)
+  /\ slot' = [p \in Slots |-> IF slot[p].id = i THEN FreeSlot ELSE slot[p]]
+  /\ res' = first \o DieCmps(i)
 
 Init == /\ tab = [i \in Ids |-> FreeSess] /\ nmint = 0 /\ slot = [p \in Slots |-> FreeSlot]
         /\ tiewin = FALSE /\ res = <<>> /\ ranNow = 0 /\ bad = FALSE
@@ -140,25 +135,20 @@ PostFast(body, i, user) ==   \* answered within the step: tool call, or a repeat
 PostSlow(i, user) ==   \* admitted; stays in progress until EndPost
   /\ LookupStatus(i, user) = 0 /\ tab[i].st = "live" /\ HasFreeSlot
   /\ tab' = [tab EXCEPT ![i] = [StartPOST(tab[i]) EXCEPT !.run = tab[i].run + 1]]
-  /\ slot' = [slot EXCEPT ![SmallestFree] = [id |-> i, hung |-> FALSE, tie |-> (tab[i].cb \/ Due(i))]]
+  /\ slot' = [slot EXCEPT ![SmallestFree] = [id |-> i, tie |-> (tab[i].cb \/ Due(i))]]
   /\ res' = <<>> /\ ranNow' = 1 /\ UNCHANGED nmint
 
-PostPark(body, i, user) ==   \* the session is being closed: the call is never dispatched and ends when the session does
-  /\ body \in {"call", "slow"} /\ LookupStatus(i, user) = 0 /\ tab[i].st = "closing"
-  /\ IF body = "slow"
-     THEN /\ HasFreeSlot
-          /\ slot' = [slot EXCEPT ![SmallestFree] = [id |-> i, hung |-> TRUE, tie |-> FALSE]]
-          /\ tab' = [tab EXCEPT ![i] = StartPOST(tab[i])]
-     ELSE /\ tab[i].pdel + tab[i].phung < MaxParked
-          /\ tab' = [tab EXCEPT ![i] = [StartPOST(tab[i]) EXCEPT !.phung = tab[i].phung + 1]]
-          /\ UNCHANGED slot
-  /\ res' = <<>> /\ ranNow' = 0 /\ UNCHANGED nmint
+PostClosing(body, i, user) ==   \* the session is being closed: every call is refused with a JSON-RPC error
+  /\ LookupStatus(i, user) = 0 /\ tab[i].st = "closing"
+  /\ tab' = [tab EXCEPT ![i] = Touch(tab[i])]
+  /\ res' = <<Cmp("POST", body, i, user, "live", 200, IF body \in {"init", "badinit"} THEN i ELSE 0, FALSE, FALSE)>>
+  /\ ranNow' = 0 /\ UNCHANGED <<nmint, slot>>
 
 StatelessPost(body, tgt, user) ==   \* ephemeral session per request; the id header is not read
   /\ body \in {"init", "call", "slow"}
   /\ IF body = "slow"
      THEN /\ HasFreeSlot
-          /\ slot' = [slot EXCEPT ![SmallestFree] = [id |-> IF tgt = NoId THEN -2 ELSE Unknown, hung |-> FALSE, tie |-> FALSE]]
+          /\ slot' = [slot EXCEPT ![SmallestFree] = [id |-> IF tgt = NoId THEN -2 ELSE Unknown, tie |-> FALSE]]
           /\ res' = <<>> /\ ranNow' = 1
      ELSE /\ res' = <<Cmp("POST", body, tgt, user, Class(tgt, user), 200, 0, FALSE, body = "call")>>
           /\ ranNow' = (IF body = "call" THEN 1 ELSE 0) /\ UNCHANGED slot
@@ -171,7 +161,7 @@ Post(body, tgt, user) ==
      ELSE \/ PostReject(body, tgt, user)
           \/ (tgt \in Minted /\ PostFast(body, tgt, user))
           \/ (tgt \in Minted /\ body = "slow" /\ PostSlow(tgt, user))
-          \/ (tgt \in Minted /\ PostPark(body, tgt, user))
+          \/ (tgt \in Minted /\ PostClosing(body, tgt, user))
 
 -----------------------------------------------------------------------------
 \* GET (standalone stream; the client disconnects as soon as the stream is established), DELETE
@@ -194,7 +184,7 @@ Delete(tgt, user) ==
      ELSE IF tab[tgt].run = 0
      THEN Die(tgt, <<Cmp("DELETE", "", tgt, user, "live", 204, 0, FALSE, FALSE)>>)
      ELSE \* session.Close() waits for the running tool: the DELETE is answered when the session dies
-          /\ tab[tgt].pdel + tab[tgt].phung < MaxParked
+          /\ tab[tgt].pdel < MaxParked
           /\ tab' = [tab EXCEPT ![tgt].st = "closing", ![tgt].pdel = @ + 1]
           /\ res' = <<>> /\ UNCHANGED slot
 
@@ -208,22 +198,18 @@ Close(i) ==
 
 \* the gated tool of slot p returns: its POST is answered and ends
 EndPost(p) ==
-  /\ Step /\ slot[p].id # 0 /\ ~slot[p].hung
+  /\ Step /\ slot[p].id # 0
   /\ ranNow' = 0 /\ UNCHANGED nmint
   /\ LET i == slot[p].id IN
      IF Stateless
      THEN /\ res' = <<Cmp("POST", "slow", IF i = -2 THEN NoId ELSE Unknown, "", "none", 200, 0, FALSE, TRUE)>>
           /\ slot' = [slot EXCEPT ![p] = FreeSlot] /\ UNCHANGED tab
-     ELSE IF tab[i].st = "closing"
-     THEN \* the connection is shutting down: the tool's response is dropped and its POST stays open
-          \* until the session is gone
-          LET sl == [slot EXCEPT ![p].hung = TRUE] IN
-          IF tab[i].run = 1 THEN DieWith(i, <<>>, sl)
-          ELSE /\ tab' = [tab EXCEPT ![i].run = @ - 1]
-               /\ slot' = sl /\ res' = <<>>
-     ELSE /\ tab' = [tab EXCEPT ![i] = EndPOST([tab[i] EXCEPT !.run = tab[i].run - 1])]
-          /\ slot' = [slot EXCEPT ![p] = FreeSlot]
-          /\ res' = <<Cmp("POST", "slow", i, "", "live", 200, 0, FALSE, TRUE)>>
+     ELSE LET c == Cmp("POST", "slow", i, "", "live", 200, 0, FALSE, TRUE) IN
+          IF tab[i].st = "closing" /\ tab[i].run = 1
+          THEN Die(i, <<c>>)   \* the last running tool: session.Close() proceeds
+          ELSE /\ tab' = [tab EXCEPT ![i] = EndPOST([tab[i] EXCEPT !.run = tab[i].run - 1])]
+               /\ slot' = [slot EXCEPT ![p] = FreeSlot]
+               /\ res' = <<c>>
 
 -----------------------------------------------------------------------------
 \* time
@@ -259,7 +245,7 @@ TimerFire(i) ==
 \* the callback runs: sessInfo.session.Close()
 TimeoutCallback(i) ==
   /\ tab[i].cb
-  /\ bad' = (bad \/ \E p \in Slots : slot[p].id = i /\ ~slot[p].hung /\ ~slot[p].tie)
+  /\ bad' = (bad \/ \E p \in Slots : slot[p].id = i /\ ~slot[p].tie)
   /\ tab' = [tab EXCEPT ![i] = IF tab[i].st = "live"
                                 THEN (IF tab[i].run = 0 THEN DeadSess(tab[i].owner)
                                       ELSE [tab[i] EXCEPT !.st = "closing", !.cb = FALSE])
@@ -324,7 +310,7 @@ ResAlways == [][ResProps']_vars
 ClosedAndForgotten ==
   \A i \in Ids : tab[i].st = "dead" =>
      /\ i \notin Sessions /\ tab[i].tmr = "nil" /\ tab[i].refs = 0 /\ tab[i].run = 0
-     /\ tab[i].pdel = 0 /\ tab[i].phung = 0
+     /\ tab[i].pdel = 0
      /\ \A p \in Slots : slot[p].id # i
 
 \* the idle timer is armed only while no POST is in progress; refs counts the POSTs in progress
@@ -333,8 +319,8 @@ TimerDiscipline ==
      /\ tab[i].refs >= 0 /\ tab[i].run >= 0
      /\ tab[i].tmr = "armed" => tab[i].refs = 0 /\ tab[i].run = 0 /\ tab[i].st = "live"
      /\ (tab[i].st \in {"live", "closing"} /\ T > 0) =>
-           tab[i].refs = Cardinality({p \in Slots : slot[p].id = i}) + tab[i].phung
-     /\ tab[i].run = Cardinality({p \in Slots : slot[p].id = i /\ ~slot[p].hung})
+           tab[i].refs = Cardinality({p \in Slots : slot[p].id = i})
+     /\ tab[i].run = Cardinality({p \in Slots : slot[p].id = i})
      /\ tab[i].st = "closing" => tab[i].run > 0
      /\ (tab[i].st = "live" /\ T > 0) => tab[i].tmr # "nil"
 =============================================================================
